@@ -189,28 +189,32 @@ func bodyFeatures(b *ast.Body, f map[string]bool, depth int) (items int) {
 func TestC02_Structure(t *testing.T) {
 	hx.Run(t, "C02", "Structure", 20000,
 		"abstract body tree (attributes with literal values, blocks with 0..3 labels over the full label alphabet, depth<=3, one-line and empty blocks) x G-LAYOUT file rendering (indentation, blank lines, #, // and /* */ comments, LF/CRLF, BOM, missing final newline); non-trivial = >=2 items, a labelled or nested block and a non-canonical layout feature; distinct by tree dump",
-		func(c *hx.Case) {
-			t := c.T
-			tree := gen.DrawBody(t, gen.BodyOpts{Depth: 3})
-			dump := ast.DumpBody(tree)
-			c.Set("tree", dump)
-			bo := drawBodyOpts(t)
-			src, r := render.File(tree, rchooser{t}, bo)
-			c.Set("source", src)
-			feats := map[string]bool{}
-			items := bodyFeatures(tree, feats, 0)
-			featClasses(c, "tree_", feats)
-			featClasses(c, "layout_", r.Feat)
-			f, diags := hclsyntax.ParseConfig([]byte(src), "t.hcl", hcl.InitialPos)
-			if diags.HasErrors() {
-				c.Failf("parse-error", "rendering does not parse: %s", diagStr(diags))
-			}
-			checkSyntaxBody(c, tree, f.Body.(*hclsyntax.Body), "")
-			checkContent(c, tree, f.Body, "")
-			layoutFeature := len(r.Feat) > 0
-			c.Done(items >= 2 && (feats["labelled_block"] || feats["nested_block"]) && layoutFeature, dump)
-		})
+		caseC02Structure)
 }
+
+func caseC02Structure(c *hx.Case) {
+	t := c.T
+	tree := gen.DrawBody(t, gen.BodyOpts{Depth: 3})
+	dump := ast.DumpBody(tree)
+	c.Set("tree", dump)
+	bo := drawBodyOpts(t)
+	src, r := render.File(tree, rchooser{t}, bo)
+	c.Set("source", src)
+	feats := map[string]bool{}
+	items := bodyFeatures(tree, feats, 0)
+	featClasses(c, "tree_", feats)
+	featClasses(c, "layout_", r.Feat)
+	f, diags := hclsyntax.ParseConfig([]byte(src), "t.hcl", hcl.InitialPos)
+	if diags.HasErrors() {
+		c.Failf("parse-error", "rendering does not parse: %s", diagStr(diags))
+	}
+	checkSyntaxBody(c, tree, f.Body.(*hclsyntax.Body), "")
+	checkContent(c, tree, f.Body, "")
+	layoutFeature := len(r.Feat) > 0
+	c.Done(items >= 2 && (feats["labelled_block"] || feats["nested_block"]) && layoutFeature, dump)
+}
+
+func FuzzC02_Structure(f *testing.F) { hx.Fuzz(f, "C02", "Structure", caseC02Structure) }
 
 // TestC02_DuplicateAttr: a body that defines an attribute name twice is always rejected.
 func TestC02_DuplicateAttr(t *testing.T) {
